@@ -67,6 +67,15 @@ type Program struct {
 	Patches []Patch
 	TabInit []TabWord
 	Motifs  map[string]int
+	// host-API shape of the host program that runs the kernels (host.go):
+	// "" (one context) | host_wl | host_wc | host_three | host_2proc;
+	// AllocOther: buffers are allocated through the context that does the
+	// copies instead of the one that launches; ReupAfter >= 0: after kernel
+	// ReupAfter the first half of its OUT buffer and the random area of TAB are
+	// uploaded again (new data) through the copying context
+	Host       string
+	AllocOther bool
+	ReupAfter  int
 }
 
 // feature names
@@ -89,6 +98,8 @@ var allFeatures = []string{
 	// LDS read before written; with multi_kernel also pairs of launches whose
 	// every kernel reads the same LDS words first and writes them afterwards
 	"lds_rbw",
+	// host-API shapes (host.go)
+	"host_wl", "host_wc", "host_three", "host_2proc", "host_alloc_other", "reup",
 }
 
 // features that exist only for one architecture
@@ -1047,7 +1058,7 @@ func BuildProgram(spec ProgSpec) (prog *Program, err error) {
 		allow[f] = true
 		allow["force:"+f] = true
 	}
-	prog = &Program{Spec: spec, TabSize: 1024}
+	prog = &Program{Spec: spec, TabSize: 1024, ReupAfter: -1}
 	arch := g.GCN3
 	if spec.Arch == "cdna3" {
 		arch = g.CDNA3
@@ -1134,6 +1145,7 @@ func BuildProgram(spec ProgSpec) (prog *Program, err error) {
 		}
 		sort.Strings(kn.Feat)
 		prog.Kernels = append(prog.Kernels, kn)
+		chooseHost(prog, allow, force)
 		return prog, nil
 	}
 
@@ -1448,6 +1460,7 @@ func BuildProgram(spec ProgSpec) (prog *Program, err error) {
 		prog.Kernels = append(prog.Kernels, kn)
 		prevO = oStr
 	}
+	chooseHost(prog, allow, force)
 	return prog, nil
 }
 
